@@ -259,6 +259,9 @@ func (g *Gen) amount() *big.Int {
 	r := g.R
 	switch r.Intn(10) {
 	case 0:
+		if r.Intn(3) == 0 {
+			return big.NewInt(0)
+		}
 		return big.NewInt(1)
 	case 1:
 		if g.BigAmts {
@@ -655,6 +658,9 @@ func (g *Gen) admin(m *State) sdk.Msg {
 	default:
 		lims := []*big.Int{big.NewInt(0), big.NewInt(1), big.NewInt(2), big.NewInt(1000000), Two64, Two255, Max256}
 		denom := []string{"uusdc", "UUSDC", "uUsdc", "ueure"}[r.Intn(4)]
+		if r.Intn(8) == 0 {
+			return SetMaxAbsentAmount(g.maybeWrong(m.TC), denom)
+		}
 		return &ct.MsgSetMaxBurnAmountPerMessage{From: g.maybeWrong(m.TC), LocalToken: denom, Amount: sdkmath.NewIntFromBigInt(lims[r.Intn(len(lims))])}
 	}
 }
